@@ -1,6 +1,6 @@
 (** C03 — Storage errors leave committed state unchanged or fully applied. Statement file. *)
 From Coq Require Import List NArith Bool.
-From SL Require Import Base.Tie Core.Model C02.Model C03.Model C03.Proofs C03.Others.
+From SL Require Import Base.Tie Core.Model C02.Model C03.Model C03.Proofs C03.Others C03.History C03.HistoryProofs.
 Import ListNotations.
 
 (** One failing storage call anywhere in a commit (before or after its effect): the commit either
@@ -48,6 +48,26 @@ Theorem C03_compact_ok_complete : forall f1 f2 f3 f4 : fk,
   c_mem_new (compact_f f1 f2 f3 f4) = true /\ c_disk_new (compact_f f1 f2 f3 f4) = true.
 Proof. exact compact_ok_complete. Qed.
 
+(** Whole histories.  C03/History.v composes the per-call fault models into a model of the writer
+    over any sequence of writer(), add, delete, commit, rollback, drop, compact and reopen calls,
+    each call taking the fault assignment of its storage-touching steps.  Every history of that
+    model in which at most one storage call fails - whichever call of whichever kind, before or
+    after its effect - is accepted by the specification written from the statement: a call that
+    returned an error left the contents seen by new readers and by a reopen unchanged, with the
+    operations still in the log or in the handle (retryable); a call that returned success applied
+    its effects fully; and the final healthy commit yields the committed contents with the
+    outstanding operations applied. *)
+Theorem C03_history_single_fault : forall script c,
+  (script_faults script <= 1)%nat -> case_of script = Some c -> spec c = true.
+Proof. exact history_faults_meet_spec. Qed.
+
+(** One call of the model is one of the specification's possibilities (the step of the proof
+    above, useful on its own: it is what ties [ok_step] / [err_step] to the fault models). *)
+Theorem C03_call_refines_spec : forall s a f s' ok,
+  hstep s a f = Some (s', ok) -> (cfault_count f <= 1)%nat -> hM s = hD s ->
+  hM s' = hD s' /\ In (hM s', hQ s') (step_of ok a (hM s, hQ s)).
+Proof. exact hstep_in_spec. Qed.
+
 (** The code as found violated both sentences (repaired by two fix: commits). *)
 Theorem C03_unfixed_truncate_refuted :
   exists f, nfaults f = 1%nat /\ single_ok (commit_f false true f) = false.
@@ -68,3 +88,19 @@ Example C03_nonvacuous :
                         f_etrunc := NoF; f_erestore := NoF; f_trunc := NoF |}
   = {| r_ok := false; r_mem_new := false; r_disk_new := false; r_newseg := false; r_queue_kept := true |}.
 Proof. reflexivity. Qed.
+
+(** a history with a fault inside a commit, one inside an add (orphan record) and a failed
+    rollback is produced by the model and accepted *)
+Example C03_history_nonvacuous :
+  (exists c, case_of [(NewWriter 1, FNone); (AddDoc 1 1 0 1, FNone);
+                      (Commit 1, FCommitF {| f_walsync := NoF; f_seg := NoF; f_store := FAfter; f_marker := NoF;
+                                            f_markersync := NoF; f_etrunc := NoF; f_erestore := NoF; f_trunc := NoF |});
+                      (Commit 1, FNone); (AddDoc 1 2 1 2, FNone); (DropWriter 1, FNone)] = Some c /\ spec c = true) /\
+  (exists c, case_of [(NewWriter 1, FNone); (AddDoc 1 1 0 1, FAddW FAfter); (DropWriter 1, FNone);
+                      (NewWriter 1, FNone); (Commit 1, FNone)] = Some c /\ spec c = true /\
+             snd c = (Some [(0, 1)], Some [(0, 1)])) /\
+  (exists c, case_of [(NewWriter 1, FNone); (AddDoc 1 1 0 1, FNone); (Rollback 1, FRollbackF FBefore NoF);
+                      (Commit 1, FNone)] = Some c /\ spec c = true).
+Proof.
+  repeat split; eexists; (split; [vm_compute; reflexivity|]); try (split; vm_compute; reflexivity); vm_compute; reflexivity.
+Qed.
